@@ -2,6 +2,7 @@ package main
 
 import (
 	"context"
+	"encoding/base64"
 	"fmt"
 	"math"
 	"math/big"
@@ -194,6 +195,7 @@ func c15API(c *Ctx, optName string, opts ...larking.MuxOption) {
 
 	// --- deadlines via grpc-timeout header
 	cases := []string{"1S", "5S", "10S", "100m", "2500m", "1M", "2H", "99999999H", "00000003S", "3000000u", "4000000000n", "59M",
+		"0S", "0n", "0H", "00m", "00000000u", "010S", "00000100S", "08M", "0090S", "0b11m", "0o17S", "1_0S", "0X1fn",
 		"", "S", "+5S", "-5S", "5", "5s", "5 S", " 5S", "5.0S", "123456789S", "0x5S", "5SS"}
 	for _, tv := range cases {
 		if tv == "" {
@@ -232,6 +234,40 @@ func c15API(c *Ctx, optName string, opts ...larking.MuxOption) {
 			if ns > 0 || inv != 0 { // a zero timeout may legitimately expire before the handler runs
 				c.SpecFail("api-deadline", optName+" "+tv, fmt.Sprintf("invoked=%d deadline=%v remaining=%v", inv, hd, rem), fmt.Sprintf("deadline %v after receipt", T), "C15/api/deadline-wrong", "handler context deadline differs from grpc-timeout")
 			}
+		}
+	}
+
+	// --- gRPC-web: the client goes away while the handler runs (in-process, the request's own context)
+	for _, ct := range []string{"application/grpc-web+proto", "application/grpc-web-text+proto"} {
+		for len(released) > 0 {
+			<-released
+		}
+		body := string(grpcFrame(0, nil))
+		if strings.Contains(ct, "text") {
+			body = base64.StdEncoding.EncodeToString([]byte(body))
+		}
+		ctx, cancel := context.WithCancel(context.Background())
+		r := httptest.NewRequest("POST", "/verif.v1.Svc/Block", strings.NewReader(body)).WithContext(ctx)
+		r.Header.Set("Content-Type", ct)
+		done := make(chan struct{})
+		start := time.Now()
+		go func() { fx.Serve(r); close(done) }()
+		time.Sleep(40 * time.Millisecond)
+		cancel()
+		how := "handler still running after 2 s"
+		select {
+		case how = <-released:
+		case <-time.After(2 * time.Second):
+		}
+		in := optName + " " + ct + ": request context cancelled 40 ms into a blocking unary handler"
+		c.Eval("api-web-cancel", in, true)
+		if how != "ctx" || time.Since(start) > 2*time.Second {
+			c.SpecFail("api-web-cancel", in, how, "the handler's context is cancelled promptly", "C15/api/web-cancel-not-propagated", "a gRPC-web client going away does not cancel the handler's context")
+		}
+		cancel()
+		select {
+		case <-done:
+		case <-time.After(5 * time.Second):
 		}
 	}
 
